@@ -105,6 +105,7 @@ type FBDNSDB struct {
 	reloadMu      sync.RWMutex
 	done          chan struct{}
 	lru           *lru.Cache
+	cacheGen      uint64 // bumped on every successful reload; guarded by reloadMu
 	logger        Logger
 	stats         stats.Stats
 	Next          plugin.Handler
@@ -366,6 +367,7 @@ func (h *FBDNSDB) Reload(s ReloadSignal) (err error) {
 	h.dbConfig.Path = newPath
 	verifhook.Yield("reload.swapped")
 
+	h.cacheGen++
 	if h.cacheConfig.Enabled && h.lru != nil {
 		h.lru.Purge()
 	}
@@ -383,10 +385,19 @@ func (h *FBDNSDB) Reload(s ReloadSignal) (err error) {
 // providing a consistent view on the DB during a query.
 // The Reader must be `Close`d when not needed anymore.
 func (h *FBDNSDB) AcquireReader() (db.Reader, error) {
+	reader, _, err := h.acquireReader()
+	return reader, err
+}
+
+// acquireReader is AcquireReader which also returns the cache generation the
+// reader belongs to: answers computed with this reader may only be cached, and
+// cached answers only be served, under that generation.
+func (h *FBDNSDB) acquireReader() (db.Reader, uint64, error) {
 	verifhook.YieldRLock("acquire.rlock", &h.reloadMu)
 	h.reloadMu.RLock()
 	defer h.reloadMu.RUnlock()
-	return db.NewReader(h.dnsdb)
+	reader, err := db.NewReader(h.dnsdb)
+	return reader, h.cacheGen, err
 }
 
 // Close closes the database. It also takes care of closing the channel used
